@@ -2,8 +2,9 @@ import Req.Client.CompressClose
 /-!
 C14 — closing a decoded `Response.Body` closes the body underneath, for each of the four
 wrappers of `internal/compress`, after any sequence of reads and closes; and the statement is
-FALSE of `DeflateReader.Close` as the fork has it (fixes/C14-5), witnessed by `decide` and
-replayed by lane `close` (class `deflate-close-leaves-body-open`).
+FALSE of `DeflateReader.Close` as the fork had it (repaired in /repo by 1ae1001) and of `ZstdReader.Close`
+as it has it (fixes/C14-6), witnessed by `decide` and replayed by lanes `close` / `close_e2e` (classes
+`deflate-close-leaves-body-open`, `zstd-close-waits-for-body`).
 -/
 namespace Req.Props.C14Close
 open Req.Proto Req.Compress
